@@ -183,7 +183,8 @@ def build_ocaml():
         open(d + '/' + conv, 'w').write(subst(base['conv.ml']))
         files = [g for g in base if g not in ('sexp.ml', 'reg.ml', 'conv.ml', 'modelrun.ml') and owned.get(g, 'model') == u]
         # within a unit: histrun first (others reuse its printers), then alphabetical
-        files.sort(key=lambda g: (g != 'histrun.ml', g))
+        # plain libraries (e.g. sha256.ml) first, then histrun (others reuse its printers), then the other *run.ml handlers
+        files.sort(key=lambda g: (g.endswith('run.ml'), g != 'histrun.ml', g))
         for g in files:
             open(d + '/' + g, 'w').write(subst(base[g]))
         order += [u + '.mli', u + '.ml', conv] + files
